@@ -79,6 +79,15 @@ TEXTS['T14'] = ('S14', [('kv', 'kx', 'x'), ('sec', 'ta', 'n1', [('kv', 'ka', 'a'
                         ('kv', 'zz', 'any')])
 SPECS_K += [('T14', [[W2, '=', V1]]), ('T14', [['n1/ka=', V1], ['sb/kb=q']]), ('T14', [['ta/', W2, '=', V1]])]
 
+# section names that are not basic-keys (a colon, a non-ASCII letter, LONG S whose casefold is not its lower case):
+# a path component addresses them by their lower-cased spelling, nothing more
+TEXTS['T8'] = ('S2', [('sec', 'ta', 'first', [('kv', 'ka', '0')]),
+                      ('sec', 'ta', 'a:b', [('kv', 'ka', '1')]),
+                      ('sec', 'ta', 'n\u017f', [('kv', 'ka', '2')]),
+                      ('sec', 'ta', '\u00e9b', [('kv', 'ka', '3'), ('kv', 'kb', 'x')])])
+SPECS_K += [('T8', [['a:b/ka=', V1]]), ('T8', [['A:B/ka=', V1], ['first/ka=7']]), ('T8', [['n\u017f/ka=', V1]]),
+            ('T8', [['N\u017f/ka=', V1]]), ('T8', [['\u00c9B/kb=', V1]]), ('T8', [['ns/ka=', V1]]), ('T8', [['b+c/ka=', V1]])]
+
 # '%import' lines are carried as ('raw', line, None) items: rendered verbatim, never edited
 TEXTS['I1'] = ('I12', [('raw', '%import vfq_a', None),
                        ('sec', 'pa', 'n1', [('kv', 'ka', '1')]),
